@@ -45,16 +45,16 @@ Proof.
   assert (Hfb : first_bang line0 = Some i) by apply first_bang_spaces.
   assert (Esk : skipn i line0 = bang :: bang :: t) by apply skipn_spaces.
   assert (Hfn : firstn i line0 = spaces i) by apply firstn_spaces.
-  assert (Hm1 : match_mark [">"%char] line0 false = None) by (unfold match_mark; rewrite Hfb, Esk; reflexivity).
-  assert (Hm2 : match_mark ["|"%char] line0 false = None) by (unfold match_mark; rewrite Hfb, Esk; reflexivity).
-  assert (Hm3 : match_mark ["*"%char] line0 false = None) by (unfold match_mark; rewrite Hfb, Esk; reflexivity).
-  assert (Hm4 : match_mark ["!"%char] line0 false = Some i) by (unfold match_mark; rewrite Hfb, Esk; reflexivity).
-  assert (Hfb2 : match_com (spaces i) false = None).
-  { unfold match_com. apply first_bang_none; [exact I|apply bang_free_spaces]. }
+  assert (Hm1 : match_mark [">"%char] line0 None = None) by (rewrite match_mark_outside, Hfb, Esk; reflexivity).
+  assert (Hm2 : match_mark ["|"%char] line0 None = None) by (rewrite match_mark_outside, Hfb, Esk; reflexivity).
+  assert (Hm3 : match_mark ["*"%char] line0 None = None) by (rewrite match_mark_outside, Hfb, Esk; reflexivity).
+  assert (Hm4 : match_mark ["!"%char] line0 None = Some i) by (rewrite match_mark_outside, Hfb, Esk; reflexivity).
+  assert (Hfb2 : match_com (spaces i) None = None).
+  { rewrite match_com_outside. apply first_bang_none; [exact I|apply bang_free_spaces]. }
   unfold step. cbn [mk_g linit docbuffer prevdoc reading_alt continued reading_predoc reading_predoc_alt linebuffer
                     docmark predocmark docmark_alt predocmark_alt default_cfg].
   fold line0. unfold line0 at 1. rewrite strip_head_bang.
-  change (unterminated []) with false.
+  change (qstate []) with (@None ascii).
   change (s ">") with [">"%char]. change (s "|") with ["|"%char].
   change (s "*") with ["*"%char]. change (s "!") with ["!"%char].
   rewrite Hm1, Hm2, Hm3, Hm4. cbv beta iota zeta. rewrite Hfn, Esk, is_blank_spaces, Hfb2, strip_spaces.
@@ -67,7 +67,7 @@ Ltac unfold_step line0 :=
   cbn [mk_g pre_state linit docbuffer prevdoc reading_alt continued reading_predoc reading_predoc_alt linebuffer
        docmark predocmark docmark_alt predocmark_alt default_cfg];
   fold line0;
-  change (unterminated []) with false;
+  change (qstate []) with (@None ascii);
   change (s ">") with [">"%char]; change (s "|") with ["|"%char];
   change (s "*") with ["*"%char]; change (s "!") with ["!"%char].
 
@@ -83,11 +83,11 @@ Proof.
   assert (Hfb : first_bang line0 = Some i) by apply first_bang_spaces.
   assert (Esk : skipn i line0 = bang :: ">"%char :: t) by apply skipn_spaces.
   assert (Hfn : firstn i line0 = spaces i) by apply firstn_spaces.
-  assert (Hm1 : match_mark [">"%char] line0 false = Some i) by (unfold match_mark; rewrite Hfb, Esk; reflexivity).
-  assert (Hm2 : match_mark ["|"%char] line0 false = None) by (unfold match_mark; rewrite Hfb, Esk; reflexivity).
-  assert (Hm3 : match_mark ["*"%char] line0 false = None) by (unfold match_mark; rewrite Hfb, Esk; reflexivity).
-  assert (Hm4 : match_mark ["!"%char] line0 false = None) by (unfold match_mark; rewrite Hfb, Esk; reflexivity).
-  assert (Hcom : match_com line0 false = Some i) by (unfold match_com; exact Hfb).
+  assert (Hm1 : match_mark [">"%char] line0 None = Some i) by (rewrite match_mark_outside, Hfb, Esk; reflexivity).
+  assert (Hm2 : match_mark ["|"%char] line0 None = None) by (rewrite match_mark_outside, Hfb, Esk; reflexivity).
+  assert (Hm3 : match_mark ["*"%char] line0 None = None) by (rewrite match_mark_outside, Hfb, Esk; reflexivity).
+  assert (Hm4 : match_mark ["!"%char] line0 None = None) by (rewrite match_mark_outside, Hfb, Esk; reflexivity).
+  assert (Hcom : match_com line0 None = Some i) by exact Hfb.
   assert (Hrm : remark default_cfg line0 i (length [">"%char]) = docl t).
   { unfold remark, docl. cbn [default_cfg docmark length]. change (s "!") with ["!"%char].
     unfold line0. rewrite skipn_app, spaces_length.
@@ -110,9 +110,9 @@ Lemma step_blank_after_doc n :
 Proof.
   set (line0 := spaces n).
   assert (Hfb : first_bang line0 = None) by (apply first_bang_none; [exact I|apply bang_free_spaces]).
-  assert (Hm : forall m, match_mark m line0 false = None).
-  { intros m. unfold match_mark. destruct m; [reflexivity|]. now rewrite Hfb. }
-  assert (Hcom : match_com line0 false = None) by exact Hfb.
+  assert (Hm : forall m, match_mark m line0 None = None).
+  { intros m. destruct m; [reflexivity|]. now rewrite match_mark_outside, Hfb. }
+  assert (Hcom : match_com line0 None = None) by exact Hfb.
   unfold_step line0. unfold line0 at 1. rewrite strip_spaces. cbn [first_is].
   rewrite !Hm. cbv beta iota zeta. rewrite !if_same, Hcom. unfold line0. rewrite strip_spaces. tidy. reflexivity.
 Qed.
@@ -124,9 +124,9 @@ Proof.
   assert (Hfb : first_bang line0 = Some i) by apply first_bang_spaces.
   assert (Esk : skipn i line0 = bang :: t) by apply skipn_spaces.
   assert (Hfn : firstn i line0 = spaces i) by apply firstn_spaces.
-  assert (Hm : forall m, In m ["!"%char; ">"%char; "*"%char; "|"%char] -> match_mark [m] line0 false = None).
-  { intros m Hin. unfold match_mark. rewrite Hfb. now rewrite (plain_no_mark t i line0 Hp Esk m Hin). }
-  assert (Hcom : match_com line0 false = Some i) by exact Hfb.
+  assert (Hm : forall m, In m ["!"%char; ">"%char; "*"%char; "|"%char] -> match_mark [m] line0 None = None).
+  { intros m Hin. rewrite match_mark_outside, Hfb. now rewrite (plain_no_mark t i line0 Hp Esk m Hin). }
+  assert (Hcom : match_com line0 None = Some i) by exact Hfb.
   unfold_step line0. unfold line0 at 1. rewrite strip_head_bang.
   rewrite (Hm ">"%char) by (simpl; tauto). rewrite (Hm "|"%char) by (simpl; tauto).
   rewrite (Hm "*"%char) by (simpl; tauto). rewrite (Hm "!"%char) by (simpl; tauto).
@@ -185,9 +185,9 @@ Proof.
   destruct tl as [|t|t] eqn:Etl; cbn [render_tail tail_docs] in *.
   - (* nothing after the statement *)
     assert (Eline : line0 = spaces a ++ text ++ spaces b) by (unfold line0; now rewrite app_nil_r).
-    assert (Hm : forall m, match_mark m line0 false = None).
-    { intros m. unfold match_mark. destruct m; [reflexivity|]. now rewrite Eline, Hcore. }
-    assert (Hcom : match_com line0 false = None) by (unfold match_com; now rewrite Eline).
+    assert (Hm : forall m, match_mark m line0 None = None).
+    { intros m. destruct m; [reflexivity|]. now rewrite match_mark_outside, Eline, Hcore. }
+    assert (Hcom : match_com line0 None = None) by (rewrite match_com_outside; now rewrite Eline).
     unfold_step line0. rewrite Hhash, !Hm. cbv beta iota zeta. rewrite !if_same, Hcom.
     rewrite Eline, Hstrip. rewrite app_nil_r. rewrite Hamp, Hla'. change (strip []) with (@nil ascii).
     cbn [app s list_ascii_of_string]. tidy. reflexivity.
@@ -195,9 +195,9 @@ Proof.
     destruct Htl as (Hq & Hp).
     assert (Hfb : first_bang line0 = Some k).
     { rewrite Hsplit, Hpre, Hq. reflexivity. }
-    assert (Hm : forall m, In m ["!"%char; ">"%char; "*"%char; "|"%char] -> match_mark [m] line0 false = None).
-    { intros m Hin. unfold match_mark. rewrite Hfb. now rewrite (plain_no_mark t k line0 Hp Hsk m Hin). }
-    assert (Hcom : match_com line0 false = Some k) by exact Hfb.
+    assert (Hm : forall m, In m ["!"%char; ">"%char; "*"%char; "|"%char] -> match_mark [m] line0 None = None).
+    { intros m Hin. rewrite match_mark_outside, Hfb. now rewrite (plain_no_mark t k line0 Hp Hsk m Hin). }
+    assert (Hcom : match_com line0 None = Some k) by exact Hfb.
     unfold_step line0. rewrite Hhash.
     rewrite (Hm ">"%char) by (simpl; tauto). rewrite (Hm "|"%char) by (simpl; tauto).
     rewrite (Hm "*"%char) by (simpl; tauto). rewrite (Hm "!"%char) by (simpl; tauto).
@@ -207,11 +207,11 @@ Proof.
   - (* inline documentation after the statement *)
     assert (Hfb : first_bang line0 = Some k).
     { rewrite Hsplit, Hpre, Htl. reflexivity. }
-    assert (Hm1 : match_mark [">"%char] line0 false = None) by (unfold match_mark; rewrite Hfb, Hsk; reflexivity).
-    assert (Hm2 : match_mark ["|"%char] line0 false = None) by (unfold match_mark; rewrite Hfb, Hsk; reflexivity).
-    assert (Hm3 : match_mark ["*"%char] line0 false = None) by (unfold match_mark; rewrite Hfb, Hsk; reflexivity).
-    assert (Hm4 : match_mark ["!"%char] line0 false = Some k) by (unfold match_mark; rewrite Hfb, Hsk; reflexivity).
-    assert (Hcom : match_com (spaces a ++ text ++ spaces b) false = None) by exact Hcore.
+    assert (Hm1 : match_mark [">"%char] line0 None = None) by (rewrite match_mark_outside, Hfb, Hsk; reflexivity).
+    assert (Hm2 : match_mark ["|"%char] line0 None = None) by (rewrite match_mark_outside, Hfb, Hsk; reflexivity).
+    assert (Hm3 : match_mark ["*"%char] line0 None = None) by (rewrite match_mark_outside, Hfb, Hsk; reflexivity).
+    assert (Hm4 : match_mark ["!"%char] line0 None = Some k) by (rewrite match_mark_outside, Hfb, Hsk; reflexivity).
+    assert (Hcom : match_com (spaces a ++ text ++ spaces b) None = None) by exact Hcore.
     unfold_step line0. rewrite Hhash, Hm1, Hm2, Hm3, Hm4. cbv beta iota zeta.
     rewrite Hfn, Hsk, !if_same, Hcom, Hstrip.
     rewrite Hamp, Hla'. change (strip []) with (@nil ascii).
@@ -368,3 +368,13 @@ Proof.
   split; [|vm_compute; reflexivity].
   repeat constructor; simpl; repeat split; try reflexivity; try discriminate.
 Qed.
+
+(* documentation written between the lines of a continued literal, and after its closing quote on a
+   line that started inside it, is delivered with the statement (outside the one-line statements
+   of [ditem]; evaluated) *)
+Example docs_around_continued_literal :
+  read_all default_cfg [s "x = 'abc&"; s "  !! about x"; s "  &def' !! more"]
+  = ROk [s "x = 'abcdef'"; s "!! about x"; s "!! more"] /\
+  read_all default_cfg [s "!> pre"; s "x = 'abc&"; s "  ! plain"; s "  &def' ! c"; s "!! after"]
+  = ROk [s "x = 'abcdef'"; s "!! pre"; s "!! after"].
+Proof. split; vm_compute; reflexivity. Qed.
